@@ -1,7 +1,9 @@
 //! Correspondence harness: runs the real crate (hooks on) on generated inputs
 //! and prints JSON that the ./check driver turns into Coq case files.
+mod est;
 mod fy;
 mod invhash;
+mod mle;
 mod tracker;
 mod util;
 
@@ -16,6 +18,9 @@ fn main() {
         "invhash-vectors" => invhash::vectors(rest),
         "invhash-search" => invhash::search(rest),
         "invhash-replay" => invhash::replay(rest),
+        "est-cases" => est::cases(rest),
+        "mle-cases" => mle::cases(rest),
+        "mle-replay" => mle::replay(rest),
         "fy-cases" => fy::cases(rest),
         "fy-pick-cases" => fy::pick_cases(rest),
         "fy-search" => fy::search(rest),
